@@ -551,6 +551,13 @@ func (s *Stream) SendError(serr error) (err error) {
 func (s *Stream) SendCancel(err error) (busy bool, _ error) {
 	s.log("CALL", func() string { return "SendCancel()" })
 
+	// a finished stream has nothing in flight and nothing to cancel. it may
+	// still be inside the call that finished it (holding the mutex), which
+	// must not be mistaken for being busy.
+	if s.sigs.fin.IsSet() {
+		return false, nil
+	}
+
 	if !s.mu.TryLock() { // if we can't inspect if writes are happening, hard cancel.
 		return true, nil
 	}
